@@ -11,8 +11,8 @@ import (
 )
 
 func checkC01(p *Program, r *Report) {
-	r.Explanation = "Decided necessary conditions on the agreement between the builder and the readers of the succinct encoding: (kind) for every wire bitmap the set of index kinds (r64/r128/s32) given where it is built is a singleton and equals the kind every rank/select site assumes (library calls and the hand-inlined RankIndex[i>>6]+popcount idiom; receiver-relative sites of (*VLenArray).get etc. bound at their call sites), and each query is given the words and index of one bitmap; (layout) the node-bitmap layout has one definition: every function that computes an inner node's bit range computes the same normalised terms for from/to/short-bitmap with the same guards, the derived constants are (257-17)*BigInnerCnt, ShortSize-17 and mask(ShortSize), and the builder's (label word size, bitmap size) pairs are exactly (4,17) and (8,257); (capacity) a presence bitmap whose set bits are ordinals derived from builder counters is built with a capacity that is, as a normalised term, the last ordinal plus one in the same counters — so it covers the ordinals of all elements, not just of those that have an entry (the leaf-prefix bitmap was sized by a counter that stays 0 without values); (vlen-width) the fixed-vs-variable width layout of a value array is decided by a per-element fold (a flag cleared in the element loop under size(current) != size(previous)), not from aggregates; (labelrange) the function that turns the query byte at the cursor into a label index returns, by interval evaluation over the byte type with wrap-around, exactly 0 for an exhausted key, [1,256] for 8-bit words and [1,16] for 4-bit words — so every label bit the builder can set is addressable for every byte value 0x00-0xff and nothing is sign-extended or wrapped; (bigzone) readers decode an inner node as 257-bit exactly when its ordinal is below BigInnerCnt, so every in-place rewrite of the builder's node-size/bitmap lists is confined to ordinals >= the counter published as BigInnerCnt (loop start or dominating comparison); (leaf-decoder) lookups reach leaf bytes only through the leaf array's decoder."
-	r.NotCovered = "That ranks select the right child, nibble selection, the keep-mask/leaf-ordinal arithmetic, word-straddling correctness beyond sibling agreement, the value-array layout decision (fixed vs variable width)."
+	r.Explanation = "Decided necessary conditions on the agreement between the builder and the readers of the succinct encoding: (kind) for every wire bitmap the set of index kinds (r64/r128/s32) given where it is built is a singleton and equals the kind every rank/select site assumes (library calls and the hand-inlined RankIndex[i>>6]+popcount idiom; receiver-relative sites of (*VLenArray).get etc. bound at their call sites), and each query is given the words and index of one bitmap; (layout) the node-bitmap layout has one definition: every function that computes an inner node's bit range computes the same normalised terms for from/to/short-bitmap with the same guards, the derived constants are (257-17)*BigInnerCnt, ShortSize-17 and mask(ShortSize), and the builder's (label word size, bitmap size) pairs are exactly (4,17) and (8,257); (capacity) a presence bitmap whose set bits are ordinals derived from builder counters is built with a capacity that is, as a normalised term, the last ordinal plus one in the same counters — so it covers the ordinals of all elements, not just of those that have an entry (the leaf-prefix bitmap was sized by a counter that stays 0 without values); (vlen-width) the fixed-vs-variable width layout of a value array is decided by a per-element fold (a flag cleared in the element loop under size(current) != size(previous)), not from aggregates; (labelrange) the function that turns the query byte at the cursor into a label index returns, by interval evaluation over the byte type with wrap-around, exactly 0 for an exhausted key, [1,256] for 8-bit words and [1,16] for 4-bit words — so every label bit the builder can set is addressable for every byte value 0x00-0xff and nothing is sign-extended or wrapped; (bigzone) readers decode an inner node as 257-bit exactly when its ordinal is below BigInnerCnt, so every in-place rewrite of the builder's node-size/bitmap lists is confined to ordinals >= the counter published as BigInnerCnt (loop start or dominating comparison); (leaf-decoder) lookups reach leaf bytes only through the leaf array's decoder; (bitslice) by bit-provenance evaluation of the guarded summary over all 64x16 (offset mod 64, ShortSize) cases, the index into the short-node table is exactly the ShortSize bits stored at the node's offset and no word beyond the node is read."
+	r.NotCovered = "That ranks select the right child, nibble selection, the keep-mask/leaf-ordinal arithmetic, the value-array layout decision (fixed vs variable width)."
 	r.Trusted = []string{"go/ssa", "openacid/low/bitmap index builders and rank/select (kinds by contract)"}
 
 	checkKinds(p, r)
@@ -23,6 +23,7 @@ func checkC01(p *Program, r *Report) {
 	checkLeafDecoder(p, r, "C01.leaf-decoder")
 	checkBigZone(p, r, "C01.bigzone")
 	checkEncodeIndependent(p, r, "C01.encode-independent")
+	checkBitSlice(p, r, "C01.bitslice")
 }
 
 // ---------------------------------------------------------------------------
